@@ -436,7 +436,10 @@ class Check(core.PropertyCheck):
     def model_runs(self, ctx):
         small = self._consts("quick")
         small["seg"] = self._consts(ctx.tier)["seg"]  # the segmentation model stays small: always dumped
-        out = [ctx.model_check(self.MODEL, small[tag], dump=True, tag="_" + tag) for tag in self.TAGS]
+        from concurrent.futures import ThreadPoolExecutor
+
+        with ThreadPoolExecutor(3) as ex:  # three independent single-worker TLC runs side by side
+            out = list(ex.map(lambda tag: ctx.model_check(self.MODEL, small[tag], dump=True, tag="_" + tag), self.TAGS))
         for tag, m in zip(self.TAGS, out):
             need = {"udp": ("ClientQuery", "UpstreamReply", "HookDone", "OpenDone", "ClientBad", "Finish"),
                     "tcp": ("CSeg", "SSeg", "ClientZero", "HookDone"), "seg": ("CSeg", "SSeg", "EndRun")}[tag]
